@@ -238,6 +238,12 @@ def reader_reuse(ctx, report, rule="R-DOC-REUSE", clause="1"):
                         for c in caps:
                             out.add(id(c))
                             out.update(id(nd) for nd in c.attrs["nodes"])
+                            # the mutable things a caption holds: its style dict, its layout and its nodes' layouts
+                            for holder in [c] + list(c.attrs["nodes"]):
+                                for k_ in ("style", "layout_info", "content"):
+                                    v_ = holder.attrs.get(k_)
+                                    if isinstance(v_, (dict, list)) or (isinstance(v_, Stub) and v_.cls is not None):
+                                        out.add(id(v_))
                     return out
                 if objs(r1) & objs(r3) or objs(r1) & objs(r2):
                     bad.append(dict(case, why="two results share caption / node objects"))
